@@ -151,3 +151,13 @@ func init() {
 		mutant{Name: "benign-exact-check-shift-count-test-moved", Prop: "C03", File: "interp/typecheck.go", Old: "\t\tif !exact {\n\t\t\treturn nil\n\t\t}\n", New: "\t\tif exact == false {\n\t\t\treturn nil\n\t\t}\n", Benign: true},
 	)
 }
+
+func init() {
+	addMutants(
+		// round-6 seeds on C01
+		mutant{Name: "no-copy-back-for-a-for-without-condition-and-post", Prop: "C01", File: "interp/cfg.go", Old: "\tbody.start = body.child[0] // loopvar\n\tfor i, fi := range forInitVars(n) {\n", New: "\tbody.start = body.child[0] // loopvar\n\tif n.kind == forStmt1 {\n\t\treturn\n\t}\n\tfor i, fi := range forInitVars(n) {\n", Rule: "R01.3", Key: "setLoopVarBody/installs-loopVarBack-for-every-statement-kind"},
+		mutant{Name: "struct-literal-built-in-its-destination", Prop: "C01", File: "interp/run.go", Old: "\t\ta := reflect.New(rt).Elem()\n\t\tfor i, v := range values {\n\t\t\ta.Field(i).Set(v(f))\n\t\t}\n\t\td := value(f)\n\t\tswitch {\n\t\tcase d.Kind() == reflect.Ptr:\n\t\t\td.Set(a.Addr())\n\t\tcase destInterface:", New: "\t\td := value(f)\n\t\tif isAssign && !destInterface && d.Kind() == reflect.Struct && d.Type() == rt {\n\t\t\td.Set(reflect.Zero(rt))\n\t\t\tfor i, v := range values {\n\t\t\t\td.Field(i).Set(v(f))\n\t\t\t}\n\t\t\treturn next\n\t\t}\n\t\ta := reflect.New(rt).Elem()\n\t\tfor i, v := range values {\n\t\t\ta.Field(i).Set(v(f))\n\t\t}\n\t\tswitch {\n\t\tcase d.Kind() == reflect.Ptr:\n\t\t\td.Set(a.Addr())\n\t\tcase destInterface:", Rule: "R01.30", Key: "doComposite/closure#1/built-apart-from-the-destination"},
+		mutant{Name: "second-call-operand-of-return-not-copied", Prop: "C01", File: "interp/run.go", Old: "\tcase 2:\n\t\tv0, v1 := values[0], values[1]\n", New: "\tcase 2:\n\t\tv0, v1 := values[0], values[1]\n\t\tif isCall(child[1]) && child[1].typ.id() == def.typ.ret[1].id() {\n\t\t\tv1 = func(f *frame) reflect.Value { return f.data[1] }\n\t\t}\n", Rule: "R01.31", Key: "_return/call-operands-not-copied-are-those-cfg-stores-directly"},
+		mutant{Name: "benign-struct-literal-destination-read-first", Prop: "C01", File: "interp/run.go", Old: "\t\ta := reflect.New(rt).Elem()\n\t\tfor i, v := range values {\n\t\t\ta.Field(i).Set(v(f))\n\t\t}\n\t\td := value(f)\n\t\tswitch {\n\t\tcase d.Kind() == reflect.Ptr:\n\t\t\td.Set(a.Addr())\n\t\tcase destInterface:", New: "\t\td := value(f)\n\t\ta := reflect.New(rt).Elem()\n\t\tfor i, v := range values {\n\t\t\ta.Field(i).Set(v(f))\n\t\t}\n\t\tswitch {\n\t\tcase d.Kind() == reflect.Ptr:\n\t\t\td.Set(a.Addr())\n\t\tcase destInterface:", Benign: true},
+	)
+}
